@@ -1,4 +1,5 @@
 """C01 — GJK distance: feasible, consistent, optimal (structural clauses)."""
+from . import scopes
 from ..core.report import DOMAIN_D
 from ..rules import mink, simplex, loops, buffers, clip
 
@@ -6,6 +7,7 @@ J = "distance3d.gjk._gjk_jolt"
 
 
 def run(idx, rep, tier):
+    rep.set_scope(scopes.scope(idx, "C01"))
     rep.explanation = (
         "Structural necessary conditions of the Jolt-style GJK distance query: support points are A-B support points and "
         "collider pairs keep their order (R-MINK); the parallel arrays Y/P/Q are stored row-wise together from (p-q, p, q) "
@@ -15,14 +17,13 @@ def run(idx, rep, tier):
         "the k-point solver gets Y[0..k-1] (R-SOLVERDISPATCH); loop discipline (R-LOOP); the early `Clipped` exit requires the new support point behind the origin plane (R-CLIPGUARD). |a-b| = d within 1e-5 L, optimality "
         "and d>0 <=> separated are NOT decided.")
     rep.assumptions = DOMAIN_D
-    scope = [J, "distance3d.minkowski"] if tier == "quick" else None
-    mink.r_mink(idx, rep, modules=scope, floor=8 if scope else 30)
-    mink.r_par(idx, rep)
+    mink.r_mink(idx, rep, modules=[J], floor=2)
+    mink.r_par(idx, rep, floor=3)
     mink.r_bary(idx, rep)
     simplex.r_bitmap(idx, rep)
     simplex.r_maskpoint(idx, rep)
     simplex.r_planes(idx, rep)
     simplex.r_solverdispatch(idx, rep)
-    buffers.r_compact(idx, rep, modules={J}, floor=4)
-    loops.r_loop(idx, rep, [J], floor=5)
+    buffers.r_compact(idx, rep, modules={J}, floor=3)
+    loops.r_loop(idx, rep, [J], floor=4)
     clip.r_clipguard(idx, rep)
